@@ -31,7 +31,7 @@ def run(ctx, res):
     res.extra["inventory"] = inv.stats
     panics.rule_acyclic(prog, res, cl, "ENC")
     panics.rule_no_interior_mutability(prog, res)
-    bitio.rule_r_width(prog, res)
+    bitio.rule_r_width(prog, res, which=("put",))
     bitio.rule_p_pre(prog, res)
     bitio.rule_guard_cursor(prog, res, bitio.PUT, 3)
     builder.rules_new_clear(prog, res)
